@@ -9,9 +9,9 @@ VERIF = os.path.dirname(os.path.dirname(os.path.abspath(__file__)))
 CLAIMS = {
     "C01": dict(
         category="other", design_ref="§5 U02/U03",
-        technique="Kani/CBMC inductive-step harnesses on seglog Writer::{append,sync,set_len} extracted verbatim over an arbitrary state satisfying the writer invariant (cursor alignment), against an in-memory disk / BufWriter model",
+        technique="Kani/CBMC inductive-step harnesses on seglog Writer::{append,sync,set_len} and on the writer thread's WriterSet::{sync,rollover}, all extracted verbatim, over an arbitrary state satisfying the representation invariant (cursor alignment; published watermark <= fsynced offset of the live segment), against an in-memory disk / BufWriter / watch-channel model",
         text="Bounded stand-in (scaled buffer constants, tiny records, ALL byte contents and ALL writer positions symbolic): from any state with file cursor + buffered bytes == write offset, append writes exactly length/checksum/header/data at the reported offset and publishes nothing; sync lands the buffered bytes at the cursor, calls sync_data, then publishes flushed == write offset; set_len lowers both offsets, writes the marker, keeps bytes below AND re-aligns the cursor (so a rejected/truncated append cannot displace later acknowledged ones). By induction the invariant holds after every history of these calls.",
-        note="PARTIAL: only the seglog layer. NOT decided: WriterSet::{handle_write,sync,rollover} and the sync_tx watermark / ack-after-fsync hand-off in the writer thread pool (the rollover watermark candidate of DESIGN §10 is not under contract), reads through the async reader pool, real kernel fsync semantics (sync_data is a model no-op counted for ordering only), reopen. Multi-step history harnesses ran CBMC out of memory and are not registered."),
+        note="PARTIAL: the seglog layer plus the watermark invariant of the writer thread (units/U12w: WriterSet::sync fsyncs, publishes pending index entries, then the watermark; WriterSet::rollover releases every appender of the sealed segment and starts the new segment with watermark <= fsynced - this harness found the stale-watermark defect fixed in cc7f18a). NOT decided: WriterSet::handle_write, the async hand-off in WriterThreadPool::append_events (released when watermark >= write offset: read, not proved), reads through the async reader pool, real kernel fsync semantics (sync_data is a model no-op counted for ordering only), reopen. Multi-step history harnesses ran CBMC out of memory and are not registered."),
     "C17": dict(
         category="other", design_ref="§5 U01/U02",
         technique="Kani/CBMC on seglog parse_record extracted verbatim over every bit pattern of a 20-byte buffer (CRC modelled as a GF(2)-linear rolling hash) + the writer's append-layout inductive step + Verus proofs of Writer::open's recovery scan and of the read-ahead cache (units/U03)",
